@@ -30,6 +30,7 @@ type Conn struct {
 	nwrites int
 	wfail   int // index of the first failing Write call, -1: none
 	closes  int
+	name    string // remote address reported to the server (distinguishes connections)
 }
 
 var errReadFault = errors.New("verif: read fault")
@@ -106,7 +107,12 @@ func (a addr) Network() string { return "verif" }
 func (a addr) String() string  { return string(a) }
 
 func (c *Conn) LocalAddr() net.Addr                { return addr("server") }
-func (c *Conn) RemoteAddr() net.Addr               { return addr("client") }
+func (c *Conn) RemoteAddr() net.Addr {
+	if c.name != "" {
+		return addr(c.name)
+	}
+	return addr("client")
+}
 func (c *Conn) SetDeadline(t time.Time) error      { return nil }
 func (c *Conn) SetReadDeadline(t time.Time) error  { return nil }
 func (c *Conn) SetWriteDeadline(t time.Time) error { return nil }
